@@ -84,3 +84,65 @@ Proof.
   intros [[a1 a2] a3] [[b1 b2] b3] [[c1 c2] c3]. cbv zeta. unfold rdot, rfnormal, rcross, rsub, rzero.
   repeat split; ring.
 Qed.
+
+(* ---- hemisphere: rings run from the equator (ring 0, polar angle pi/2) up to the apex; the dome uses the other
+        diagonal of every quad and the opposite winding of the sphere, the base disc is a fan around the origin ---- *)
+Section HemiPatch.
+  (* index 0: the upper ring (smaller polar angle), index 1: the lower ring *)
+  Variables (rad sp0 cp0 sp1 cp1 c0 s0 c1 s1 : R).
+  Hypothesis Hr : 0 < rad.
+  Hypothesis Hs0 : 0 < sp0.
+  Hypothesis Hs1 : 0 < sp1.
+  Hypothesis down : 0 < cp0 * sp1 - cp1 * sp0.
+  Hypothesis turn : 0 < c0 * s1 - s0 * c1.
+  Let V (sp cp c s : R) : rvec := (sp * c * rad, cp * rad, sp * s * rad).
+
+  (* hemisphere.go: tris = append(tris, i0, i2, i1, i0, i3, i2) with i0, i1 on the lower ring, i3, i2 on the upper *)
+  Theorem hemi_quad_faces_outward :
+    rfaces_away rzero (V sp1 cp1 c0 s0, V sp0 cp0 c1 s1, V sp1 cp1 c1 s1) /\
+    rfaces_away rzero (V sp1 cp1 c0 s0, V sp0 cp0 c0 s0, V sp0 cp0 c1 s1).
+  Proof.
+    assert (P0 : 0 < rad * rad * rad * sp0 * (cp0 * sp1 - cp1 * sp0) * (c0 * s1 - s0 * c1))
+      by (repeat apply Rmult_lt_0_compat; assumption).
+    assert (P1 : 0 < rad * rad * rad * sp1 * (cp0 * sp1 - cp1 * sp0) * (c0 * s1 - s0 * c1))
+      by (repeat apply Rmult_lt_0_compat; assumption).
+    unfold rfaces_away. rewrite !det_away. unfold rdet3, rdot, rcross, V. split.
+    - replace (_ + _ + _) with (rad * rad * rad * sp1 * (cp0 * sp1 - cp1 * sp0) * (c0 * s1 - s0 * c1)) by ring. exact P1.
+    - replace (_ + _ + _) with (rad * rad * rad * sp0 * (cp0 * sp1 - cp1 * sp0) * (c0 * s1 - s0 * c1)) by ring. exact P0.
+  Qed.
+
+  (* tris = append(tris, 0, i0, i1): the base disc (equator ring, cosine of the polar angle = 0) seen from any point
+     (0, y, 0), y > 0, on the axis *)
+  Theorem hemi_base_faces_outward : forall y : R, 0 < y ->
+    rfaces_away (0, y, 0) (rzero, V sp1 0 c0 s0, V sp1 0 c1 s1).
+  Proof.
+    intros y Hy.
+    assert (P : 0 < rad * rad * (sp1 * sp1) * (c0 * s1 - s0 * c1) * y) by (repeat apply Rmult_lt_0_compat; assumption).
+    unfold rfaces_away, rfnormal, rdot, rcross, rsub, rzero, V.
+    replace (_ + _ + _) with (rad * rad * (sp1 * sp1) * (c0 * s1 - s0 * c1) * y) by ring. exact P.
+  Qed.
+End HemiPatch.
+
+Theorem hemi_faces_outward : forall rad phiU phiL th0 th1 y : R,
+  0 < rad -> 0 < phiU -> phiU < phiL -> phiL <= PI / 2 -> 0 < th1 - th0 -> th1 - th0 < PI -> 0 < y ->
+  let V (phi th : R) : rvec := (sin phi * cos th * rad, cos phi * rad, sin phi * sin th * rad) in
+  (* apex fan: tris = append(tris, v1i, i1, i0) at the last ring (polar angle phiU) *)
+  rfaces_away rzero ((0, rad, 0), V phiU th1, V phiU th0) /\
+  (* dome quad between the lower ring (phiL) and the upper ring (phiU) *)
+  rfaces_away rzero (V phiL th0, V phiU th1, V phiL th1) /\
+  rfaces_away rzero (V phiL th0, V phiU th0, V phiU th1) /\
+  (* base disc wedge (equator ring: sine 1, cosine 0 of the polar angle) *)
+  rfaces_away (0, y, 0) (rzero, (1 * cos th0 * rad, 0 * rad, 1 * sin th0 * rad), (1 * cos th1 * rad, 0 * rad, 1 * sin th1 * rad)).
+Proof.
+  intros rad phiU phiL th0 th1 y Hr H0 H01 H1 Ht0 Ht1 Hy. cbv zeta. pose proof PI_RGT_0 as Hpi.
+  assert (S0 : 0 < sin phiU) by (apply sin_gt_0; lra).
+  assert (S1 : 0 < sin phiL) by (apply sin_gt_0; lra).
+  assert (D : 0 < cos phiU * sin phiL - cos phiL * sin phiU).
+  { replace (cos phiU * sin phiL - cos phiL * sin phiU) with (sin (phiL - phiU)) by (rewrite sin_minus; ring).
+    apply sin_gt_0; lra. }
+  assert (T : 0 < cos th0 * sin th1 - sin th0 * cos th1) by (apply turn_sincos; assumption).
+  destruct (fan_faces_outward rad (sin phiU) (cos phiU) (cos th0) (sin th0) (cos th1) (sin th1) Hr S0 T) as [F1 _].
+  destruct (hemi_quad_faces_outward rad _ (cos phiU) _ (cos phiL) _ _ _ _ Hr S0 S1 D T) as [Q1 Q2].
+  pose proof (hemi_base_faces_outward rad 1 (cos th0) (sin th0) (cos th1) (sin th1) Hr Rlt_0_1 T y Hy) as B.
+  repeat split; assumption.
+Qed.
